@@ -414,7 +414,7 @@ func bigSnapshot(g *vlib.Rng) {
 	}
 	prev := runtime.GOMAXPROCS(0)
 	defer runtime.GOMAXPROCS(prev)
-	for _, procs := range []int{1, 2, prev, 1} {
+	for _, procs := range []int{1, 2, prev, 1, 2, 1} { // schedule-dependent: on a loaded machine a single reload of a lapping ring can come out complete
 		setMode(false)
 		loaded, _, e := loadSnapshotT(dir, procs)
 		if e != "" {
